@@ -124,7 +124,7 @@ func c06RunChar(c c06Char) error {
 	if err != nil {
 		return err
 	}
-	cell, err := enumCell(r, ref, nil, ev.Pick(20000, 200000)+10)
+	cell, err := enumCell(r, ref, ev.Pick(20000, 200000)+10)
 	if err != nil {
 		return err
 	}
@@ -144,13 +144,15 @@ func c06RunChar(c c06Char) error {
 		return &ev.Skip{Why: "nothing accepted"}
 	}
 	if len(cell.Rejected) > 0 {
-		var all []uint32
-		for i := 0; i < spg.MaxTrials; i++ {
-			all = append(all, cell.Rejected[i%len(cell.Rejected)]...)
+		// the whole-process probability below assumes what C02 states: a rejected
+		// attempt is followed by a complete fresh one, at most MaxTrials in all
+		if cell.All != nil {
+			if _, err := chainCheck(r, cell, cell.Rejected[:1]); err != nil {
+				return err
+			}
 		}
-		o := callForced(all, func(k int, n uint32) uint32 { return ref.Choices[k%ref.D] }, 9, r.Generate)
-		if o.Pw != nil {
-			return fmt.Errorf("after %d rejected candidates Generate still returned %q: that outcome is not counted by the reported entropy %v", spg.MaxTrials, o.Pw.String(), ent)
+		if err := budgetCheck(r, ref, cell.Rejected); err != nil {
+			return fmt.Errorf("%w (that outcome is not counted by the reported entropy %v)", err, ent)
 		}
 	}
 	q := cell.RejW
